@@ -274,6 +274,8 @@ var fsCalls = map[string]bool{"Lstat": true, "Stat": true, "Remove": true, "Remo
 	"Symlink": true, "Readlink": true, "OpenFile": true, "Open": true, "Create": true, "WriteFile": true, "ReadFile": true,
 	"Rename": true, "Chmod": true, "Truncate": true}
 
+var fileMethods = map[string]bool{"WriteAt": true, "Truncate": true, "Sync": true}
+
 func takesLock(b *ast.BlockStmt) bool {
 	found := false
 	ast.Inspect(b, func(x ast.Node) bool {
@@ -307,6 +309,11 @@ func (in *instr) callsFS(n ast.Node) bool {
 		case *ast.CallExpr:
 			if sel, ok := v.Fun.(*ast.SelectorExpr); ok {
 				if id, ok := sel.X.(*ast.Ident); ok && (id.Name == "os" || id.Name == "screw") && fsCalls[sel.Sel.Name] {
+					found = true
+					return false
+				}
+				// methods that only files have (a file kept open and written in place)
+				if fileMethods[sel.Sel.Name] {
 					found = true
 					return false
 				}
